@@ -181,6 +181,19 @@ CLAIMED = {
               'is rendered as a whole file with a random physical layout and indexed by the real LogicalIndex.'),
         note='Known findings F10a / F10b are identified by template / object shape. One CHANNEL set per logical file.',
         technique='TLA+ spec + TLC model checking; one implementation test per terminal state of the model'),
+    'C04': dict(
+        category='model_checking', design='3/C04',
+        text=('TLC model checks populate as InitArrays (storage reused when the length is unchanged, modelled as stale cells) '
+              'plus one ReadFrame per selected record over every history of up to 3 populate calls with slices, samples, all and '
+              'channel requests (DlisFrames.tla): after each completed call the arrays are exactly the abstract answer, so the '
+              'result depends on the arguments only; generated RP66V1 files (1..2 interleaved frame types, channels of every '
+              'fixed-length numeric representation code and several dimensions, empty data records, random physical layout) are '
+              'indexed by the real LogicalIndex and histories of populate_frame_array calls on the same logical file are recorded: '
+              'returned count and, per channel, the record each row came from, validated by TLC against DlisFramesTrace.tla '
+              '(slice = Python slicing exactly, sample = any valid spread); dtype, shape, element values, frame numbers and X values '
+              'of the index are checked as well.'),
+        note='Values are unique per record so the row -> record projection is exact; selections select >= 1 frame.',
+        technique='TLA+ spec + TLC model checking of populate histories; TLC trace validation of real populate histories'),
 }
 
 NOT_YET = 'check not built yet in this session; planned per DESIGN.md section 3'
